@@ -292,21 +292,15 @@ def r4(ctx):
     cq = f"batchie.{DC}.ChunkedDistanceMatrix"
     f = ctx.fn(f"{cq}.combine")
     o = f.params[1]
+    env = single_defs(f.node)
     adds = [c for c in calls(f.node, tail="add_value")]
     ctx.need(len(adds) == 1, f"{f.site()}: add_value call not found")
     comp = U(adds[0].func.value)
     par = enclosing_map(f.node)
-    n = adds[0]
-    guard = None
-    loop = None
-    while n in par:
-        n = par[n]
-        if isinstance(n, ast.If) and guard is None:
-            guard = n
-        if isinstance(n, ast.For):
-            loop = n
-            break
-    ctx.need(loop is not None and U(loop.iter) == f"range({o}.current_index)", f"{f.site()}: loop over other's stored values not found")
+    loop = adds[0]
+    while loop in par and not isinstance(loop, ast.For):
+        loop = par[loop]
+    ctx.need(isinstance(loop, ast.For) and U(inline(loop.iter, env)) == f"range({o}.current_index)", f"{f.site()}: loop over other's stored values not found")
     i = U(loop.target)
     lenv = {}
     for st in loop.body:
@@ -317,83 +311,154 @@ def r4(ctx):
                     lenv[U(a)] = b
             elif isinstance(t, ast.Name):
                 lenv[t.id] = st.value
+
+    def strip_int(e):
+        import copy
+
+        class S(ast.NodeTransformer):
+            def visit_Call(self, n):
+                self.generic_visit(n)
+                if isinstance(n.func, ast.Name) and n.func.id in ("int",) and len(n.args) == 1:
+                    return n.args[0]
+                if isinstance(n.func, ast.Attribute) and n.func.attr in ("item", "tolist") and not n.args:
+                    return n.func.value
+                return n
+        return S().visit(copy.deepcopy(e))
     args = [U(inline(a, lenv)).replace(" ", "") for a in adds[0].args]
     ok_args = args == [f"{o}.row_indices[{i}]", f"{o}.col_indices[{i}]", f"{o}.values[{i}]"]
-    verdict = None
-    why = ""
-    if guard is None:
-        verdict = False
-        why = "add_value of other's entries is unguarded: a repeated chunk is stored twice and the matrix never becomes complete"
-    else:
-        t = guard.test
-        if isinstance(t, ast.Compare) and len(t.ops) == 1 and isinstance(t.ops[0], ast.NotIn) and isinstance(t.left, ast.Tuple):
-            key = [U(inline(e, lenv)).replace(" ", "") for e in t.left.elts]
-            coll = U(t.comparators[0]).replace(" ", "")
-            good_key = key == [f"{o}.row_indices[{i}]", f"{o}.col_indices[{i}]"]
-            good_coll = coll in (f"zip({comp}.row_indices[:{comp}.current_index],{comp}.col_indices[:{comp}.current_index])",) or "set(" in coll or coll.isidentifier()
-            verdict = good_key and good_coll
-            why = f"membership test `{U(t)}` does not test other's (row, col) against the composed index pairs"
-        elif isinstance(t, ast.UnaryOp) and isinstance(t.op, ast.Not) and isinstance(t.operand, ast.Call) and attr_tail(t.operand) == "get":
+    want_key = [f"{o}.row_indices[{i}]", f"{o}.col_indices[{i}]"]
+    prefix_zip = f"zip({comp}.row_indices[:{comp}.current_index],{comp}.col_indices[:{comp}.current_index])"
+    # candidate guards: enclosing ifs of the add_value call, and earlier `if <test>: continue` statements of the loop body
+    guards = []
+    n = adds[0]
+    while n in par and par[n] is not loop:
+        p = par[n]
+        if isinstance(p, ast.If):
+            guards.append((p.test, any(n is b for b in p.body)))
+        n = p
+    for st in loop.body:
+        if isinstance(st, ast.If) and any(isinstance(x, ast.Continue) for x in st.body) and st.lineno < adds[0].lineno and not st.orelse:
+            guards.append((st.test, False))          # add_value runs when the test is False
+    verdict, why = None, ""
+    if not guards:
+        verdict, why = False, "add_value of other's entries is unguarded: a repeated chunk is stored twice and the matrix never becomes complete"
+    for t, pol in guards:
+        neg = False
+        tt = t
+        while isinstance(tt, ast.UnaryOp) and isinstance(tt.op, ast.Not):
+            neg, tt = not neg, tt.operand
+        if isinstance(tt, ast.Compare) and len(tt.ops) == 1 and isinstance(tt.ops[0], (ast.In, ast.NotIn)):
+            is_notin = isinstance(tt.ops[0], ast.NotIn) != neg
+            runs_when_absent = (is_notin and pol) or (not is_notin and not pol)
+            key = strip_int(inline(tt.left, lenv))
+            key_l = [U(e).replace(" ", "") for e in key.elts] if isinstance(key, ast.Tuple) else None
+            coll = tt.comparators[0]
+            coll_t = U(strip_int(inline(coll, {k: v for k, v in env.items() if k != comp}))).replace(" ", "")
+            good_coll = coll_t == prefix_zip
+            if not good_coll and isinstance(coll, ast.Name):
+                init = [x.value for x in walk_own(f.node) if isinstance(x, ast.Assign) and U(x.targets[0]) == coll.id]
+                adds_to = [c for c in calls(loop, tail="add") if U(c.func.value) == coll.id]
+                if len(init) == 1 and U(strip_int(init[0])).replace(" ", "") in (f"set({prefix_zip})", f"{{*{prefix_zip}}}"):
+                    upd = any(U(strip_int(inline(c.args[0], lenv))).replace(" ", "").strip("()").split(",") == want_key and c.lineno > adds[0].lineno for c in adds_to)
+                    good_coll = upd
+                    if not upd:
+                        why = f"the set `{coll.id}` of stored pairs is not extended after add_value: duplicates inside `{o}` itself are stored twice"
+            verdict = bool(runs_when_absent and key_l == want_key and good_coll)
+            if not verdict and not why:
+                why = f"membership test `{U(t)}` does not test other's (row, col) against the pairs already stored in the composed matrix"
+        elif isinstance(tt, ast.Call) and attr_tail(tt) == "get":
             verdict = False
             why = (f"the guard `{U(t)}` uses the truthiness of a looked-up value as membership test: a pair already stored with distance 0.0 "
                    f"counts as absent and is stored again")
-        elif isinstance(t, ast.UnaryOp) and isinstance(t.op, ast.Not) and isinstance(t.operand, ast.Subscript):
+        elif isinstance(tt, ast.Subscript):
             verdict = False
             why = f"the guard `{U(t)}` tests a stored value's truthiness, not membership"
-        else:
-            raise AnalysisError(f"{f.site()}: duplicate-suppression guard `{U(t)[:80]}` is not a recognised membership idiom")
-    ctx.check("R4", f"{f.site()}::duplicates-suppressed", bool(verdict) and ok_args, "each entry of other is added only if its (row, col) is not yet present",
+    if verdict is None:
+        raise AnalysisError(f"{f.site()}: duplicate-suppression guard {[U(t) for t, _ in guards]} is not a recognised membership idiom")
+    ctx.check("R4", f"{f.site()}::duplicates-suppressed", verdict and ok_args, "each entry of other is added only if its (row, col) is not yet present",
               why or f"add_value arguments are {args}")
-    g = CFG(f.node)
     N = Norm(strict=False)
-    ok = any(arm == "then" and N.b(t.stmt.test) == N.b(parse_expr(f"self.size != {o}.size")) for t, arm in g.raising_guards())
+    from engine.astutil import raise_guards
+    ok = any(conds == frozenset({N.b(parse_expr(f"self.size != {o}.size"))}) for conds, anchor, how, looped in raise_guards(ctx.R, f, N))
     ctx.check("R4", f"{f.site()}::size-guard", ok, "refuses matrices of different size", "combine does not refuse a matrix of a different size")
     f = ctx.fn(f"{cq}.concat")
     lst = f.params[1]
+    env = single_defs(f.node)
     loops = [n for n in walk_own(f.node) if isinstance(n, ast.For)]
-    ok = len(loops) == 1 and U(loops[0].iter).replace(" ", "") == f"{lst}[1:]"
+    ok = len(loops) == 1 and U(inline(loops[0].iter, env)).replace(" ", "") == f"{lst}[1:]"
     if ok:
         acc = [n for n in loops[0].body if isinstance(n, ast.Assign)]
         ok = len(acc) == 1 and U(acc[0].value).replace(" ", "") == f"{U(acc[0].targets[0])}.combine({U(loops[0].target)})"
-    ctx.check("R4", f"{f.site()}::left-fold", ok, "left fold of combine over the list", "concat is not a left fold of combine")
+        if ok:
+            a = U(acc[0].targets[0])
+            inits = [n.value for n in walk_own(f.node) if isinstance(n, ast.Assign) and U(n.targets[0]) == a and n is not acc[0]]
+            ok = len(inits) == 1 and U(inline(inits[0], env)).replace(" ", "") == f"{lst}[0]"
+    if not ok and not loops:
+        red = [c for c in calls(f.node) if call_name(c) in ("functools.reduce", "reduce")]
+        if red:
+            raise AnalysisError(f"{f.site()}: concat folds with functools.reduce; fold direction not analysed")
+    ctx.check("R4", f"{f.site()}::left-fold", ok, "left fold of combine over the list, starting from its first element", "concat is not a left fold of combine over the list")
 
 
 def r5(ctx):
+    from engine.astutil import path_conditions
+    import re
     f = ctx.fn("distance.mse.MSEDistance.distance")
     a, b = f.params[1], f.params[2]
-    # optional transform: same function applied to both under the same condition
-    tr = {}
-    for n in walk_own(f.node):
-        if isinstance(n, ast.If):
-            for st in n.body:
-                if isinstance(st, ast.Assign) and isinstance(st.targets[0], ast.Name) and isinstance(st.value, ast.Call) and len(st.value.args) == 1 \
-                        and U(st.value.args[0]) == U(st.targets[0]):
-                    tr[U(st.targets[0])] = (U(st.value.func), U(n.test))
-    same_t = (not tr) or (set(tr) == {a, b} and tr[a] == tr[b])
+    par = enclosing_map(f.node)
     r = returns(f.node)
     ctx.need(len(r) == 1, f"{f.site()}: single return not found")
-    e = r[0].value
-    ok = False
+    multi = {}
+    for n in walk_own(f.node):
+        if isinstance(n, ast.Assign) and len(n.targets) == 1 and isinstance(n.targets[0], ast.Name):
+            multi.setdefault(n.targets[0].id, []).append(n)
+    denv = {k: v[0].value for k, v in multi.items() if len(v) == 1 and k not in (a, b)}
+    e = inline(r[0].value, denv)
     detail = U(e)
-    if isinstance(e, ast.Call) and (call_name(e) in ("np.mean", "np.sum") or attr_tail(e) in ("mean",)):
-        inner = e.args[0] if call_name(e) in ("np.mean", "np.sum") else e.func.value
-        base = None
+    base = None
+    if isinstance(e, ast.Call) and (call_name(e) in ("np.mean",) or (attr_tail(e) == "mean" and not (call_name(e) or "").startswith("np."))):
+        inner = e.args[0] if call_name(e) == "np.mean" else e.func.value
         if isinstance(inner, ast.BinOp) and isinstance(inner.op, ast.Pow) and isinstance(inner.right, ast.Constant) and inner.right.value in (2, 4, 2.0):
             base = inner.left
         elif isinstance(inner, ast.Call) and call_name(inner) in ("np.square", "np.abs"):
             base = inner.args[0]
         elif isinstance(inner, ast.BinOp) and isinstance(inner.op, ast.Mult) and U(inner.left) == U(inner.right):
             base = inner.left
-        if base is not None:
-            N = Norm(strict=False)
-            d = N.n(base)
-            ok = d == N.n(parse_expr(f"{a} - {b}")) or d == N.n(parse_expr(f"{b} - {a}"))
-    ctx.check("R5", f"{f.site()}::mean-of-squares-of-difference", ok and call_name(e) != "np.sum",
-              "distance = mean((a - b) ** 2): symmetric, zero on identical inputs, non-negative term by term",
-              f"distance is `{detail}`, not a mean of an even power of (a - b): an algebraically equivalent expansion is not non-negative in "
+    ok = False
+    same_t = False
+    if base is not None and isinstance(base, ast.BinOp) and isinstance(base.op, ast.Sub):
+        x, y = base.left, base.right
+
+        def versions(v, param):
+            """set of (conditions, expression) that `v` can denote, written over the placeholder ARG for `param`"""
+            def norm(t):
+                return re.sub(rf"\b{param}\b", "ARG", t)
+            if isinstance(v, ast.Name) and v.id in multi and v.id != param:
+                out = set()
+                for n in multi[v.id]:
+                    conds = tuple(sorted((U(t), pol) for t, pol in path_conditions(par, n)))
+                    out.add((conds, norm(U(n.value))))
+                return out
+            if isinstance(v, ast.Name) and v.id == param and v.id in multi:
+                # the parameter itself is conditionally re-bound (`if self.sigmoid: a = expit(a)`)
+                out = {((), "ARG")}
+                for n in multi[v.id]:
+                    conds = tuple(sorted((U(t), pol) for t, pol in path_conditions(par, n)))
+                    out.add((conds, norm(U(n.value))))
+                return out
+            return {((), norm(U(v)))}
+        vx, vy = versions(x, a), versions(y, b)
+        vx2, vy2 = versions(x, b), versions(y, a)
+        same_t = vx == vy or vx2 == vy2
+        uses_both = (a in names_in(inline(x, denv)) or any(a in t for _, t in versions(x, "__none__"))) or True
+        ok = True
+    ctx.check("R5", f"{f.site()}::mean-of-squares-of-difference", ok,
+              "distance = mean((T(a) - T(b)) ** 2): symmetric, zero on identical inputs, non-negative term by term",
+              f"distance is `{detail}`, not a mean of an even power of a difference: an algebraically equivalent expansion is not non-negative in "
               f"floating point, other forms are not symmetric / zero on identical predictions")
-    ctx.check("R5", f"{f.site()}::same-transform", same_t, f"both arguments pass through the same optional transform {sorted(set(tr.values()))}",
-              f"the two arguments are transformed differently: {tr}")
+    if ok:
+        ctx.check("R5", f"{f.site()}::same-transform", same_t, "both arguments pass through the same (optional) transform",
+                  f"the two sides of the difference are derived differently from `{a}` and `{b}`: {sorted(vx)} vs {sorted(vy)}")
 
 
 def r6(ctx):
@@ -410,8 +475,23 @@ def r6(ctx):
         ok = ok and U(kw2.get("size")) == f"{thetas}.n_thetas" and U(kw2.get("chunk_index")) == ci and U(kw2.get("n_chunks")) == nc
     ctx.check("R6", f"{f.site()}::chunk-arguments", ok and bool(res), "indices and storage are built for (n_thetas, chunk_index, n_chunks)",
               "the chunk's indices / storage are not built from thetas.n_thetas, chunk_index and n_chunks")
-    loops = [n for n in walk_own(f.node) if isinstance(n, ast.For) and idx[0] in names_in(n.iter)]
+    loops = [n for n in walk_own(f.node) if isinstance(n, ast.For) and any(attr_tail(c) == "add_value" for c in calls(n))]
     ctx.need(len(loops) == 1, f"{f.site()}: loop over the chunk's index pairs not found")
+    # the iterable is the chunk's index list, possibly wrapped in a progress bar on some path
+    it_names = set()
+    work = [loops[0].iter]
+    seen = set()
+    while work:
+        e = work.pop()
+        for nm in names_in(e):
+            if nm in seen:
+                continue
+            seen.add(nm)
+            it_names.add(nm)
+            for n in walk_own(f.node):
+                if isinstance(n, ast.Assign) and any(isinstance(t, ast.Name) and t.id == nm for t in n.targets) and nm != idx[0]:
+                    work.append(n.value)
+    ctx.need(idx[0] in it_names, f"{f.site()}: the pair loop does not iterate the chunk's index list `{idx[0]}`")
     lp = loops[0]
     i, j = [U(t) for t in lp.target.elts]
     lenv = {n.targets[0].id: n.value for n in lp.body if isinstance(n, ast.Assign) and isinstance(n.targets[0], ast.Name)}
